@@ -183,7 +183,7 @@ def extras(seed, n):
         b = a * (1 - f)
         if w * w * a * a * b / gm >= 0.05 or f > 0.2:
             continue          # outside the property's quantifier (fast rotators)
-        check_ellipsoid(t, a, f, gm, abs(w), "planet-%s" % body.lower())
+        check_ellipsoid(t, a, f, gm, w, "planet-%s" % body.lower())        # w as shipped: Venus, Uranus and Pluto rotate backwards (w < 0)
     t.samples.append({"planets": "constants table", "flattenings_via_Fraction_mirror": ["1e-6", "1e-5", "1e-4", "1/298.257223563"]})
     # WGS defaults
     check_ellipsoid(t, K.EARTH_EQUATOR_RADIUS, K.EARTH_FLATTENING, K.EARTH_GM, K.EARTH_ROTATION, "wgs84")
@@ -204,7 +204,7 @@ def random_sets(args):
         g0 = 10.0 ** r.uniform(math.log10(0.5), math.log10(30.0))
         mt = 0.0 if i % 7 == 0 else r.uniform(0.0, 0.049)
         gm = g0 * a * a
-        w = math.sqrt(mt * gm / (a ** 3 * (1 - f)))
+        w = math.sqrt(mt * gm / (a ** 3 * (1 - f))) * (-1.0 if i % 5 == 2 else 1.0)      # some retrograde rotators
         cls = "f=0" if f == 0 else ("f<=1e-4" if f <= 1e-4 else "random")
         check_ellipsoid(t, a, f, gm, w, cls)
     return t
